@@ -40,7 +40,7 @@ def run(ctx):
   # ---- C12.guarded
   stores, acc = store_accesses(prog, 'config', GUARDED_STORES)
   writes = [a for a in acc if a.kind in ('write', 'rebind') and a.func is not None]
-  ctx.expect_at_least('write sites of the binding store / registries', len(writes), 8)
+  ctx.expect_at_least('write sites of the binding store / registries', len(writes), 5)
   fact_cache = {}
 
   def facts_for(f):
@@ -139,6 +139,18 @@ def run(ctx):
                uf.loc(), sites=len(g.live_nodes()))
     # the restored value is the state read on entry
     g2, facts = std_facts(prog, uf)
+    # `saved = _set_config_is_locked(False)` is the same read when the setter returns the state it replaced
+    swap_forms = set()
+    st_fn = ctx.func(LOCK_SETTER)
+    g_s, f_s = std_facts(prog, st_fn)
+    wr = [n for n in g_s.live_nodes() if n.kind == 'stmt' and isinstance(n.ast, ast.Assign) and u(n.ast.targets[0]) == flag]
+    rts = [n for n in g_s.live_nodes() if n.kind == 'return' and isinstance(n.ast.value, ast.Name)]
+    def saved_before_write(r):
+      reads = [x for x in g_s.live_nodes() if x.kind == 'stmt' and isinstance(x.ast, ast.Assign) and u(x.ast.targets[0]) == r.ast.value.id]
+      return len(reads) == 1 and u(reads[0].ast.value) == flag and \
+          all(witness(g_s, g_s.entry.id, [w_.id], avoid=[reads[0].id]) is None and not g_s.reaches(w_.id, reads[0].id) for w_ in wr)
+    if wr and rts and all(saved_before_write(r) for r in rts):
+      swap_forms.add('%s(False)' % LOCK_SETTER.split('.')[-1])
     ok = bool(rel)
     for n, c in rel:
       arg = c.args[0] if c.args else None
@@ -146,12 +158,13 @@ def run(ctx):
       if isinstance(arg, ast.Name):
         fs = facts_at(g2, facts, enclosing_stmt(c))
         d = def_of(fs or (), arg.id)
-      if d not in ('config_is_locked()', flag):
+      if d not in ('config_is_locked()', flag) and not (d in swap_forms):
         ok = False
     # and it was read before the flag was cleared
     if ok and acq:
       fs = facts_at(g2, facts, acq[0].ast) or ()
-      ok = any(fct[0] == 'def' and fct[2] in ('config_is_locked()', flag) for fct in fs)
+      ok = any(fct[0] == 'def' and fct[2] in ('config_is_locked()', flag) for fct in fs) or \
+          any(isinstance(acq[0].ast, ast.Assign) and u(acq[0].ast.value) in swap_forms for _ in [0])
     ctx.check(ok, 'C12.restore', ucon, 'the value restored is the lock state read before unlocking',
               'the value restored is not the lock state read on entry', uf.loc(), instance='saved-value')
 
